@@ -304,13 +304,13 @@ PLAN["C04"] = {
     "kani_escalation": ["c04t_e2e_s_p_n3", "c04t_e2e_s_n_n3", "c04t_e2e_s_npn_n3"],
     "functions": _CANON_FUNCS,
     "assumptions": _CANON_ASSUMED,
-    "scope_note": "Verus: unbounded in the sequences and the table contents, n <= 8 in the dispatchers. Ground: exhaustive on the real sequences n = 0..8 (NPN coverage n = 7, 8 in thorough). Kani: every function of n <= 2 (3 thorough).",
+    "scope_note": "Verus: unbounded in the sequences and the table contents, n <= 8 in the dispatchers. Ground: exhaustive on the real sequences n = 0..8. Kani: every function of n <= 2 (3 thorough).",
 }
 
 PLAN["C05"] = {
     "level": "proof",
     "technique": "Verus contracts on the real canonization loops (index link: the returned step index names the step at which the representative was seen, including the already-canonical case via the closed-walk lemma), decoders (result == perm_at / mask spec of the sequences at that step) and dispatchers + exhaustive ground evaluation, for the real sequences n <= 8 and EVERY step, that the decoded (perm, mask) denotes exactly the composed map of that step under the property's formula + Kani end-to-end certificate check at n <= 2",
-    "level_text": "For every n <= 8 and every well-formed table, Verus proves that the representative returned is the table of a step s of the walk and that the returned permutation / mask are the decoder specifications perm_at / n_mask / npn_mask evaluated at that same step (also when the input is already canonical: the closed-walk lemma identifies the last step with the input); perm is a permutation of 0..n and mask < 2^(n+1) by the ground facts. Exhaustive ground evaluation shows, for every step of every real sequence (n <= 8; NPN n = 8 in thorough) and every assignment y, that x[perm[i]] = y[i] xor mask[i] is the composed index map of that step and mask[n] its output polarity - the property's formula. Kani cross-checks the certificate end to end for every function of n <= 2 (3 thorough).",
+    "level_text": "For every n <= 8 and every well-formed table, Verus proves that the representative returned is the table of a step s of the walk and that the returned permutation / mask are the decoder specifications perm_at / n_mask / npn_mask evaluated at that same step (also when the input is already canonical: the closed-walk lemma identifies the last step with the input); perm is a permutation of 0..n and mask < 2^(n+1) by the ground facts. Exhaustive ground evaluation shows, for every step of every real sequence (n <= 8) and every assignment y, that x[perm[i]] = y[i] xor mask[i] is the composed index map of that step and mask[n] its output polarity - the property's formula. Kani cross-checks the certificate end to end for every function of n <= 2 (3 thorough).",
     "level_note": "Trusted as for C04. The identification 'table of step s == input acted on by the composed map of step s' is machine-checked (lemma_*_walk_pi); combining it with the ground certificate facts is a one-line paper step.",
     "verus_units": ["canon"],
     "kani_units": ["spec_ops.rs", "c04_e2e.rs"],
@@ -322,7 +322,7 @@ PLAN["C05"] = {
     "kani_escalation": ["c04t_e2e_s_p_n3", "c04t_e2e_s_n_n3", "c04t_e2e_s_npn_n3"],
     "functions": _CANON_FUNCS,
     "assumptions": _CANON_ASSUMED,
-    "scope_note": "Verus: unbounded in the sequences and table contents, n <= 8. Ground: every step of the real sequences n = 0..8 (NPN n = 8 in thorough). Kani: every function of n <= 2 (3 thorough).",
+    "scope_note": "Verus: unbounded in the sequences and table contents, n <= 8. Ground: every step of the real sequences n = 0..8. Kani: every function of n <= 2 (3 thorough).",
 }
 
 
